@@ -33,9 +33,10 @@ class Fam:
         self.name = name
         self.opts = opts
         self.mods = []
+        self.solos = []
         self.n = 0
 
-    def module(self, name, body, entries, expects=()):
+    def module(self, name, body, entries, expects=(), solo=False):
         self.n += 1
         lines = []
         for e in entries:
@@ -45,16 +46,20 @@ class Fam:
         lines.append("%s: module" % name)
         lines += body
         lines.append("  endmodule")
-        self.mods.append(lines)
+        if solo:
+            self.solos.append((name, lines))
+        else:
+            self.mods.append(lines)
 
     def write(self, outdir):
-        for k in range(0, len(self.mods), self.MAXMOD):
-            lines = ["# C04 generated family %s part %d (tools/gen_c04.py, seed %s)" % (self.name, k // self.MAXMOD, os.environ.get("VERIF_SEED", "0"))]
+        groups = [(str(k // self.MAXMOD), self.mods[k:k + self.MAXMOD]) for k in range(0, len(self.mods), self.MAXMOD)] + [("_" + n, [m]) for n, m in self.solos]
+        for k, g in groups:
+            lines = ["# C04 generated family %s part %s (tools/gen_c04.py, seed %s)" % (self.name, k.strip("_"), os.environ.get("VERIF_SEED", "0"))]
             if self.opts:
                 lines.append("#@ unit " + self.opts)
-            for m in self.mods[k:k + self.MAXMOD]:
+            for m in g:
                 lines += m
-            open(os.path.join(outdir, "%s%d.mir" % (self.name, k // self.MAXMOD)), "w").write("\n".join(lines) + "\n")
+            open(os.path.join(outdir, "%s%s.mir" % (self.name, k)), "w").write("\n".join(lines) + "\n")
 
 
 def chain_body(n, regs=("r", "a", "b")):
@@ -312,7 +317,7 @@ def fam_lower(rnd, tier):
             "f: func i64, i64:a, i64:b", "  local i64:t, i64:u", "  call pg, g, t, a, b", "  subos u, a, 1", "  ubo L2", "  or t, t, 1", "L2:", "  ret t", "  endfunc",
             "m1: func i64, i64:a, i64:b", "  local i64:r, i64:t", "  addo t, b, b", "  mulo r, a, 1", "  bo L3", "  ret r", "L3:", "  ret 1", "  endfunc",
             "m2: func i64, i64:a, i64:b", "  local i64:r, i64:t", "  addos t, b, b", "  mulos r, a, 1", "  bno L4", "  ret 0", "L4:", "  ret 1", "  endfunc"]
-    f.module("lo_ovf", body, ["f a=set0,0x7fffffffffffffff,0x100000000", "m1 a=set5,-3 b=set1,0x4000000000000000", "m2 a=set5,-3 b=set1,0x40000000"], ["f calls=0"])
+    f.module("lo_ovf", body, ["f a=set0,0x7fffffffffffffff,0x100000000", "m1 a=set5,-3 b=set1,0x4000000000000000", "m2 a=set5,-3 b=set1,0x40000000"], ["f calls=0"], solo=True)
     return f
 
 
